@@ -23,7 +23,9 @@ type C07Case struct {
 }
 
 func genGraphSel(t *rapid.T, depth int) C07Case {
-	g := graph.Draw(t, graph.DefaultOpts())
+	o := graph.DefaultOpts()
+	o.LinkHeavy = rapid.Bool().Draw(t, "linkheavy")
+	g := graph.Draw(t, o)
 	var links []string
 	for _, b := range g.Blocks {
 		links = append(links, graph.CidOf(b))
